@@ -65,6 +65,13 @@ func c14dir(present bool, file, decoy []byte) (string, map[string][]byte) {
 }
 
 func init() {
+	// two files parsed one after the other; the FIRST result is rendered only after the second parse: a returned list must
+	// not share storage with what a later call returns (seeded change C14-14: package-level scratch slice)
+	register("ParsePGAuthIDHold", func(a []string) string {
+		ra := pgdump.ParsePGAuthID(unhex(a[0]))
+		rb := pgdump.ParsePGAuthID(unhex(a[1]))
+		return c14Auths(ra) + ";" + c14Auths(rb)
+	})
 	register("ParsePGAuthID", func(a []string) string {
 		return withBuf(a[0], a[1], func(b []byte) string { return c14Auths(pgdump.ParsePGAuthID(b)) })
 	})
